@@ -462,6 +462,8 @@ namespace GeographicLib {
     k /= kold;
     _scale *= k;
     _k0 *= k;
+    _nrho0 *= k;
+    _drhomax *= k;
   }
 
 } // namespace GeographicLib
